@@ -3,15 +3,19 @@ from tools import chan, vlib
 
 
 class C27(vlib.Spec):
-    model_vo = ["theories/Chan/ModelWakeChk.vo"]  # definitions only
+    model_vo = ["theories/Chan/ModelWakeChk.vo", "theories/Chan/ModelWake2Chk.vo"]  # definitions only
     props_vo = "theories/Props/C27.vo"
-    theorems = ["C27_never_missed", "C27_owed_enabled", "C27_progress", "C27_notify_first_refuted"]
+    theorems = ["C27_never_missed", "C27_owed_enabled", "C27_progress", "C27_notify_first_refuted",
+                "C27_pending_never_stuck", "C27_pending_armed_or_store", "C27_armed_enabled",
+                "C27_liveness_bound"]
     crate, group, binary = "h_chan", "dfir", "h_chan"
     imports = ("From Coq Require Import List NArith.\nImport ListNotations.\n"
-               "From HV Require Import Chan.Base Chan.ModelWake Chan.ModelWakeChk.")
+               "From HV Require Import Chan.Base Chan.ModelWake Chan.ModelWakeChk.\n"
+               "From HV Require Chan.ModelWake2 Chan.ModelWake2Chk.")
     level = "proof"
     trusted_base = ["coqc 8.16.1 kernel (vm_compute used for case evaluation only)",
-                    "hand-written Gallina transition system coq/theories/Chan/ModelWake.v of WakeState / Dfir::run / "
+                    "hand-written Gallina transition systems coq/theories/Chan/ModelWake.v and ModelWake2.v (with the external "
+                    "event queue, source waker registration and defer_tick self-wake) of WakeState / Dfir::run / "
                     "run_available / run_tick (dfir_rs/src/scheduled/context.rs)",
                     "correspondence harness harness/h_chan (manual executor, cfg(hydro_verif) verif_point hook) + tools/chan.py"]
     assumptions = ["PARTIAL: every step is sequentially consistent; the code uses Ordering::Relaxed and reorderings "
@@ -24,21 +28,23 @@ class C27(vlib.Spec):
                    "separations of store and notify are covered by the model only"]
     rule = ("schedules firing the external waker the k-th time (k<3) the runner reaches one of 10 program points "
             "(the 9 hook points between the atomic operations + executor idle): all 30 single placements, all "
-            "unordered pairs (k<2: 210 quick; k<3: 465 thorough), random 3-5 wake schedules; each also with an executor whose task waker polls the runner inline "
+            "unordered pairs (k<2: 210 quick; k<3: 465 thorough), random 3-5 wake schedules; for the wider model: producer pushes into a real tokio channel "
+            "polled by the tick body (as source_stream does) / raw wakes at 11 points x 2 occurrences, ticks that "
+            "call schedule_subgraph(true) (defer_tick), random 2-5 action schedules; each also with an executor whose task waker polls the runner inline "
             "inside wake() (then at least one wake fires while the executor is idle); non-trivial = at least one wake fired and at least 2 ticks "
             "ran; distinct by case hash")
 
     def gen(self, rng, tier, n):
-        return chan.gen_wake(rng, tier, n)
+        return chan.gen_wake(rng, tier, n) + chan.gen_wake2(rng, tier, n)
 
     def n_cases(self, tier):
         return 150
 
     def to_coq(self, case, res):
-        return chan.wake_term(case, res)
+        return chan.wake2_term(case, res) if case["k"] == "wake2" else chan.wake_term(case, res)
 
     def shrink(self, case):
-        return chan.shrink_wake(case)
+        return chan.shrink_wake2(case) if case["k"] == "wake2" else chan.shrink_wake(case)
 
     def nontrivial(self, case, res):
         log = res.get("log", [])
